@@ -10,11 +10,14 @@
    - render_independent render : the text written to a path depends on (configuration class, path) only -- not on the tree
      as it is (no output file is read back), not on earlier runs in the process, not on the clock.  This is the whole
      content of "byte-identical to a fresh run" beyond "every target is re-opened with mode w"; it is discharged by
-     C10 (Properties/C10.v: C10_generate_code_resets, C10_line_pps_reset, C10_cache_transparent, C10_closure_indep: per-type
-     output ignores siblings, order and earlier runs) and C07 (Properties/C07.v: C07_run_env_indep_general,
+     C10 (Properties/C10.v C10_file_indep_real; instantiated below in render_independent_from_c10 up to ONE missing lemma,
+     totality of generation in C10's model) and C07 (Properties/C07.v: C07_run_env_indep_general,
      C07_output_dir_history_irrelevant, C07_all_ambient_reads_modelled: no dependence on clock/hash seed/output directory
      history; python target only up to the findings listed there).  The C12 check masks C07's known volatile lines.
    - env_wf e : no path is its own ancestor.
+   - no_external (c_filepps c) : no --pp-run-program.  The external program IS in the model (PPExternal f, f arbitrary; translated
+     call, run in the harness) and in the footprint / no-overwrite / directory / link statements; only "succeeds" and "equals the
+     fresh run" are proved without it (an in-place editor can fail on a read-only file and changes the content after rendering).
    - links_safe e c : every target of c is not a symbolic link, or the gate refuses links (gate_refuses_links: a property of
      the translated gate; false before design_notes/C12_symlink_fix.patch, see gate_links_dichotomy).  Links are part of env
      (no run creates or retargets one; exists/is_dir/stat/chmod/open follow them).  links_clear e c : no target is a link.
@@ -24,23 +27,38 @@
    - c11_targets_distinct (Gen/RegenC11.v): C11's NoDup of the derived type targets.
    Proofs: Gen/RegenThm.v, Gen/RegenC11.v.  Statements only here. *)
 From Coq Require Import NArith List Bool.
-From Verif Require Import RegenBase Gen_Regen Regen RegenThm RegenC11.
+From Verif Require Import RegenBase Gen_Regen Regen RegenThm RegenC11 RegenC10.
 Import ListNotations.
 Open Scope N_scope.
+
+(* Where render_independent comes from: instantiate render with the text of C10's log entry for (class, path); then the
+   premise is C10_file_indep_real (hypothesis 1, literally its statement) plus totality of generation (hypothesis 2), which C10
+   does not provide yet -- the exact bridging lemma that is missing (Gen/RegenC10.v). *)
+Theorem render_independent_from_c10 :
+  forall (log_of : N -> list GenState.entry) (cls_of : N -> N * GenState.tlist * list LinePPInst.pp)
+         (key_of : path -> GenState.tkey) (cid_of : Str.str -> N),
+  (forall a1 a2 e1 e2, In e1 (log_of a1) -> In e2 (log_of a2) ->
+     GenState.e_cfg e1 = GenState.e_cfg e2 -> GenState.e_tset e1 = GenState.e_tset e2 ->
+     GenState.e_pps0 e1 = GenState.e_pps0 e2 -> GenState.e_key e1 = GenState.e_key e2 ->
+     GenState.e_tmpl e1 = GenState.e_tmpl e2 /\ GenState.e_text e1 = GenState.e_text e2) ->
+  forall gen : (forall a cl p, { e : GenState.entry | In e (log_of a) /\ matches cls_of key_of e cl p }),
+  render_independent (render_c10 log_of cls_of key_of cid_of gen).
+Proof. exact RegenC10.render_c10_independent. Qed.
+Print Assumptions render_independent_from_c10.
 
 (* After ANY history h of complete and interrupted runs from ANY start tree s0, a successful non-dry run whose file
    post-processors contain a SetFileMode (the command line always appends one: cli_setfilemode_last) leaves at every target
    the file a run into the empty directory leaves: same content id, requested mode.  Trigger excluded (see
    copy_into_directory_refuted): a directory sits where shutil.copy is about to write a support file. *)
 Theorem regen_equals_fresh : forall render e, render_independent render -> env_wf e -> forall h s0 c p, links_safe e c ->
-  c_dryrun c = false -> c_filepps c <> [] ->
+  c_dryrun c = false -> no_external (c_filepps c) = true -> c_filepps c <> [] ->
   snd (step render e (history render e s0 h) c) = Ok -> snd (step render e empty_fs c) = Ok -> In p (targets c) ->
   obs (fst (step render e (history render e s0 h) c) p) = obs (fst (step render e empty_fs c) p).
 Proof. exact RegenThm.regen_equals_fresh. Qed.
 Print Assumptions regen_equals_fresh.
 
 Theorem regen_canonical : forall render e, render_independent render -> env_wf e -> forall s c p, links_safe e c ->
-  c_dryrun c = false -> c_filepps c <> [] ->
+  c_dryrun c = false -> no_external (c_filepps c) = true -> c_filepps c <> [] ->
   snd (step render e s c) = Ok -> In p (targets c) ->
   obs (fst (step render e s c) p) = canonical render e c p.
 Proof. exact RegenThm.canonical_any_state. Qed.
@@ -48,7 +66,7 @@ Print Assumptions regen_canonical.
 
 (* the content half needs no SetFileMode; the target is a regular file *)
 Theorem regen_content_canonical : forall render e, render_independent render -> env_wf e -> forall s c p, links_safe e c ->
-  c_dryrun c = false ->
+  c_dryrun c = false -> no_external (c_filepps c) = true ->
   snd (step render e s c) = Ok -> In p (targets c) ->
   exists f, fst (step render e s c) p = Some f /\ f_isdir f = false /\ f_cid f = render empty_fs 0 (c_class c) p.
 Proof. exact RegenThm.content_any_state. Qed.
@@ -56,12 +74,12 @@ Print Assumptions regen_content_canonical.
 
 (* a directory at the path of ANY file to generate (type file, templated or copied support file) makes the run fail; it is
    never written into, replaced, chmod-ed (owner and kind kept; untouched altogether when it is not itself a target) *)
-Theorem directory_at_target_fails : forall render e, render_independent render -> env_wf e -> forall s c, links_safe e c ->
+Theorem directory_at_target_fails : forall render e, env_wf e -> forall s c, links_safe e c ->
   c_dryrun c = false -> (exists p, In p (targets c) /\ fs_is_dir s p = true) -> snd (step render e s c) <> Ok.
 Proof. exact RegenThm.directory_at_target_fails. Qed.
 Print Assumptions directory_at_target_fails.
 
-Theorem directory_kept : forall render e, render_independent render -> env_wf e -> forall s ev q f, links_safe e (ev_cfg ev) ->
+Theorem directory_kept : forall render e, env_wf e -> forall s ev q f, links_safe e (ev_cfg ev) ->
   s q = Some f -> f_isdir f = true ->
   exists f', apply_event render e s ev q = Some f' /\ f_isdir f' = true /\ f_owned f' = f_owned f /\
              (~ In q (targets (ev_cfg ev)) -> f' = f).
@@ -76,7 +94,7 @@ Print Assumptions cli_setfilemode_last.
 (* ---- what a run can touch ------------------------------------------------------------------------------------------ *)
 (* every entry that differs after a run (successful or failed) is a target, or a directory above a target that did not
    exist and has been created *)
-Theorem written_in_footprint : forall render e, render_independent render -> env_wf e -> forall s c q, links_safe e c ->
+Theorem written_in_footprint : forall render e, env_wf e -> forall s c q, links_safe e c ->
   fst (step render e s c) q <> s q ->
   In q (targets c) \/ (In q (dir_targets e c) /\ s q = None /\ fst (step render e s c) q = Some (new_dir e)).
 Proof. exact RegenThm.written_in_footprint. Qed.
@@ -103,13 +121,13 @@ Print Assumptions targets_distinct_from_c11.
 
 (* existing entries that are not targets keep content, mode, everything -- in every run, failed or not; a missing path stays
    missing unless it is a directory above a target *)
-Theorem foreign_untouched : forall render e, render_independent render -> env_wf e -> forall s c q, links_safe e c ->
+Theorem foreign_untouched : forall render e, env_wf e -> forall s c q, links_safe e c ->
   ~ In q (targets c) -> (s q <> None \/ ~ In q (dir_targets e c)) ->
   fst (step render e s c) q = s q.
 Proof. exact RegenThm.foreign_untouched. Qed.
 Print Assumptions foreign_untouched.
 
-Theorem history_foreign : forall render e, render_independent render -> env_wf e -> forall h s q,
+Theorem history_foreign : forall render e, env_wf e -> forall h s q,
   (forall ev, In ev h -> links_safe e (ev_cfg ev)) ->
   (forall ev, In ev h -> ~ In q (targets (ev_cfg ev))) ->
   (s q <> None \/ forall ev, In ev h -> ~ In q (dir_targets e (ev_cfg ev))) ->
@@ -117,7 +135,7 @@ Theorem history_foreign : forall render e, render_independent render -> env_wf e
 Proof. exact RegenThm.history_foreign. Qed.
 Print Assumptions history_foreign.
 
-Theorem foreign_dirs_only : forall render e, render_independent render -> env_wf e -> forall h s q,
+Theorem foreign_dirs_only : forall render e, env_wf e -> forall h s q,
   (forall ev, In ev h -> links_safe e (ev_cfg ev)) ->
   (forall ev, In ev h -> ~ In q (targets (ev_cfg ev))) ->
   history render e s h q = s q \/ (s q = None /\ history render e s h q = Some (new_dir e)).
@@ -132,23 +150,49 @@ Print Assumptions foreign_unconditional_refuted.
 
 (* ---- --no-overwrite ---------------------------------------------------------------------------------------------------- *)
 (* nothing that existed before the run changes (files and directories) *)
-Theorem no_overwrite_safe : forall render e, render_independent render -> env_wf e -> forall s c q, links_safe e c ->
+Theorem no_overwrite_safe : forall render e, env_wf e -> forall s c q, links_safe e c ->
   c_allow c = false -> s q <> None -> fst (step render e s c) q = s q.
 Proof. exact RegenThm.no_overwrite_safe. Qed.
 Print Assumptions no_overwrite_safe.
 
-Theorem no_overwrite_safe_history : forall render e, render_independent render -> env_wf e -> forall h s0 q,
+Theorem no_overwrite_safe_history : forall render e, env_wf e -> forall h s0 q,
   (forall ev, In ev h -> exists c, ev = Run c /\ c_allow c = false /\ links_safe e c) -> s0 q <> None ->
   history render e s0 h q = s0 q.
 Proof. exact RegenThm.no_overwrite_safe_history. Qed.
 Print Assumptions no_overwrite_safe_history.
 
 (* a conflict is never silently accepted *)
-Theorem no_overwrite_conflict_fails : forall render e, render_independent render -> env_wf e -> forall s c, links_safe e c ->
+Theorem no_overwrite_conflict_fails : forall render e, env_wf e -> forall s c, links_safe e c ->
   c_dryrun c = false -> c_allow c = false ->
   (exists p, In p (targets c) /\ s p <> None) -> snd (step render e s c) <> Ok.
 Proof. exact RegenThm.no_overwrite_conflict_fails. Qed.
 Print Assumptions no_overwrite_conflict_fails.
+
+(* ... and with pairwise distinct targets, ready in the start tree: the run succeeds iff no target existed and ends in the
+   overwrite error iff one did.  NoDup (targets c) is discharged from C11's derived target list (targets_distinct_from_c11): *)
+Theorem no_overwrite_ok_iff : forall strop es ext stem outdir g perm types (enc : Namespace.path -> path),
+  (forall a b, enc a = enc b -> a = b) -> NoDup (Namespace.c11_targets strop es ext stem outdir g perm types) ->
+  forall render e, render_independent render -> env_wf e -> forall s c,
+  c_types c = derived_types strop es ext stem outdir g perm types enc ->
+  NoDup (map fst (support_selection (c_omit c) (c_sersup c) (c_typesup c))) ->
+  (forall p, In p (map fst (support_selection (c_omit c) (c_sersup c) (c_typesup c))) -> ~ In p (c_types c)) ->
+  c_dryrun c = false -> c_allow c = false -> no_external (c_filepps c) = true -> compatible e c c -> links_clear e c ->
+  (forall p, In p (targets c) -> ready e s p = true) ->
+  (snd (step render e s c) = Ok <-> forall p, In p (targets c) -> s p = None).
+Proof. exact RegenC11.no_overwrite_ok_iff_c11. Qed.
+Print Assumptions no_overwrite_ok_iff.
+
+Theorem no_overwrite_error_iff : forall strop es ext stem outdir g perm types (enc : Namespace.path -> path),
+  (forall a b, enc a = enc b -> a = b) -> NoDup (Namespace.c11_targets strop es ext stem outdir g perm types) ->
+  forall render e, render_independent render -> env_wf e -> forall s c,
+  c_types c = derived_types strop es ext stem outdir g perm types enc ->
+  NoDup (map fst (support_selection (c_omit c) (c_sersup c) (c_typesup c))) ->
+  (forall p, In p (map fst (support_selection (c_omit c) (c_sersup c) (c_typesup c))) -> ~ In p (c_types c)) ->
+  c_dryrun c = false -> c_allow c = false -> no_external (c_filepps c) = true -> compatible e c c -> links_clear e c ->
+  (forall p, In p (targets c) -> ready e s p = true) ->
+  (snd (step render e s c) = Err EExists <-> exists p, In p (targets c) /\ s p <> None).
+Proof. exact RegenC11.no_overwrite_error_iff_c11. Qed.
+Print Assumptions no_overwrite_error_iff.
 
 Theorem dry_run_inert : forall render e s c, c_dryrun c = true -> step render e s c = (s, Ok).
 Proof. exact RegenThm.dry_run_inert. Qed.
@@ -163,7 +207,7 @@ Theorem regen_total_history : forall render e, render_independent render -> env_
   chmodable e s0 -> (forall p, In p (targets c) -> ready e s0 p = true) ->
   compatible e c c -> (forall ev, In ev h -> compatible e c (ev_cfg ev)) ->
   links_clear e c -> (forall ev, In ev h -> links_safe e (ev_cfg ev)) ->
-  c_allow c = true -> c_dryrun c = false ->
+  c_allow c = true -> c_dryrun c = false -> no_external (c_filepps c) = true ->
   snd (step render e (history render e s0 h) c) = Ok.
 Proof. exact RegenThm.regen_total_history. Qed.
 Print Assumptions regen_total_history.
@@ -171,7 +215,7 @@ Print Assumptions regen_total_history.
 (* ---- crash points: an interrupted run (any prefix of the action list, possibly dying inside a write) -------------------- *)
 Theorem interrupted_then_rerun_equals_fresh : forall render e, render_independent render -> env_wf e ->
   forall s c0 n j junk c p, links_safe e c ->
-  c_dryrun c = false -> c_filepps c <> [] ->
+  c_dryrun c = false -> no_external (c_filepps c) = true -> c_filepps c <> [] ->
   snd (step render e (step_crash render e s c0 n j junk) c) = Ok -> snd (step render e empty_fs c) = Ok -> In p (targets c) ->
   obs (fst (step render e (step_crash render e s c0 n j junk) c) p) = obs (fst (step render e empty_fs c) p).
 Proof. intros render e Hi Hw s c0 n j junk. exact (RegenThm.regen_equals_fresh render e Hi Hw [Crash c0 n j junk] s). Qed.
@@ -179,7 +223,7 @@ Print Assumptions interrupted_then_rerun_equals_fresh.
 
 Theorem interrupted_then_rerun_succeeds : forall render e, render_independent render -> env_wf e -> forall s c n j junk,
   chmodable e s -> (forall p, In p (targets c) -> ready e s p = true) -> compatible e c c -> links_clear e c ->
-  c_allow c = true -> c_dryrun c = false ->
+  c_allow c = true -> c_dryrun c = false -> no_external (c_filepps c) = true ->
   snd (step render e (step_crash render e s c n j junk) c) = Ok.
 Proof.
   intros render e Hi Hw s c n j junk Hc Hr Hcc Lc. apply (RegenThm.regen_total_history render e Hi Hw [Crash c n j junk] s c); auto.
@@ -188,24 +232,24 @@ Proof.
 Qed.
 Print Assumptions interrupted_then_rerun_succeeds.
 
-Theorem interrupted_touches_only_footprint : forall render e, render_independent render -> env_wf e -> forall s c n j junk q,
+Theorem interrupted_touches_only_footprint : forall render e, env_wf e -> forall s c n j junk q,
   links_safe e c -> ~ In q (targets c) -> (s q <> None \/ ~ In q (dir_targets e c)) ->
   step_crash render e s c n j junk q = s q.
-Proof. intros render e Hi Hw s c n j junk. exact (RegenThm.foreign_event render e Hi Hw s (Crash c n j junk)). Qed.
+Proof. intros render e Hw s c n j junk. exact (RegenThm.foreign_event render e Hw s (Crash c n j junk)). Qed.
 Print Assumptions interrupted_touches_only_footprint.
 
 (* --no-overwrite after a partial run: everything the crash left (including a truncated file) stays as it is, and if the
    crash left any target the run ends in an error instead of completing it *)
-Theorem no_overwrite_after_crash : forall render e, render_independent render -> env_wf e -> forall s c0 n j junk c,
+Theorem no_overwrite_after_crash : forall render e, env_wf e -> forall s c0 n j junk c,
   links_safe e c -> c_allow c = false -> c_dryrun c = false ->
   (forall q, step_crash render e s c0 n j junk q <> None ->
              fst (step render e (step_crash render e s c0 n j junk) c) q = step_crash render e s c0 n j junk q) /\
   ((exists p, In p (targets c) /\ step_crash render e s c0 n j junk p <> None) ->
    snd (step render e (step_crash render e s c0 n j junk) c) <> Ok).
 Proof.
-  intros render e Hi Hw s c0 n j junk c Ls Ha Hd. split.
+  intros render e Hw s c0 n j junk c Ls Ha Hd. split.
   - intros q. now apply RegenThm.no_overwrite_safe.
-  - now apply (RegenThm.no_overwrite_conflict_fails render e Hi Hw).
+  - now apply (RegenThm.no_overwrite_conflict_fails render e Hw).
 Qed.
 Print Assumptions no_overwrite_after_crash.
 
